@@ -156,8 +156,7 @@ def clone(run, fx):
         copies = [e for e in news if e.get('init') is not None and fn.N(e['init']).get('copyctor')]
         defaults = [e for e in news if e.get('init') is not None and not fn.N(e['init']).get('copyctor')]
         inst = '%s copies' % name
-        want = 1 if name == 'gr_featureval_clone' else 2
-        if len(copies) >= want:
+        if len(copies) >= 1 and (name == 'gr_featureval_clone' or not defaults):
             run.held('CLONE', inst, fn.where(), '%d clone(s) through Features\' copy constructor' % len(copies))
         else:
             run.violated('CLONE', inst, fn.where(), '%s no longer clones through the copy constructor (%d copy-constructed, %d otherwise)' % (name, len(copies), len(defaults)))
@@ -176,26 +175,55 @@ def clone(run, fx):
 
 
 def langmatch(run, fx):
+    """what cloneFeatures copies: the features of the entry whose tag equals the argument, or the defaults -- followed through a local
+    `source` pointer if there is one"""
     fn = fx.one('graphite2::SillMap::cloneFeatures')
-    rets = [e for _, e in fn.elements() if e['k'] == 'ReturnStmt']
+    lang = fn.f['params'][0]['n']
+    kinds = set()
+    bad = []
 
-    def src_of(r):
-        for x in fn.walk(r):
-            if x['k'] == 'CXXNewExpr' and x.get('init') is not None:
-                return fn.render(fn.N(x['init']))
-        return fn.render(r)
-    ok = False
-    for r in rets:
-        if 'm_langFeats[i].m_pFeatures' in src_of(r):
-            fs = [f[:3] for f in dom.facts_at(fn, r['i'])]
-            if any('m_langFeats[i].m_lang' in f[0] and f[1] == '==' and f[2] == 'langname' for f in fs):
-                ok = True
-    dflt = any('m_defaultFeatures' in src_of(r) for r in rets)
-    if ok and dflt:
-        run.held('LANGMATCH', 'cloneFeatures', fn.where(), 'entry with m_lang == langname, otherwise the defaults')
+    def classify(node, at, depth=0):
+        n = fn.deref(node)
+        if n['k'] == 'UnaryOperator' and n['op'] in ('*', '&') and n.get('c'):
+            return classify(n['c'][0], at, depth)
+        if n['k'] == 'MemberExpr' and n['d'].endswith('m_defaultFeatures'):
+            return {'default'}
+        if n['k'] == 'MemberExpr' and n['d'].endswith('m_pFeatures') and n.get('c'):
+            base = fn.render(fn.deref(n['c'][0]), resolve=True).replace('->', '.').lstrip('*')
+            fs = [f[:3] for f in dom.facts_at(fn, at)]
+            for f in fs:
+                l = f[0].replace('->', '.').lstrip('*')
+                if f[1] == '==' and f[2] == lang and l.endswith('.m_lang') and l[:-len('.m_lang')].strip('()') == base.strip('()'):
+                    return {'entry'}
+            return {'unguarded entry (%s)' % base}
+        if n['k'] == 'DeclRefExpr' and n.get('vid') is not None and depth < 3:
+            out = set()
+            ndef = 0
+            for _, e in fn.elements():
+                if e['k'] == 'DeclStmt':
+                    for d in e.get('decls', []):
+                        if d.get('vid') == n['vid'] and d.get('init') is not None:
+                            out |= classify(d['init'], e['i'], depth + 1)
+                            ndef += 1
+                elif e['k'] == 'BinaryOperator' and e['op'] == '=' and fn.strip_all_casts(e['c'][0]).get('vid') == n['vid']:
+                    out |= classify(e['c'][1], e['i'], depth + 1)
+                    ndef += 1
+            return out if ndef else {'unknown local'}
+        return {'other: ' + fn.render(n)[:40]}
+    for _, e in fn.elements():
+        if e['k'] == 'CXXNewExpr' and 'FeatureVal' in (e.get('aty') or '') and e.get('init') is not None:
+            init = fn.N(e['init'])
+            args = [a for a in (init.get('args') or init.get('c') or []) if a is not None]
+            if not args:
+                bad.append('default-constructed copy')
+                continue
+            kinds |= classify(args[0], e['i'])
+    odd = sorted(k for k in kinds if k not in ('entry', 'default'))
+    if 'entry' in kinds and 'default' in kinds and not odd and not bad:
+        run.held('LANGMATCH', 'cloneFeatures', fn.where(), 'copies the entry with m_lang == %s, otherwise the defaults' % lang)
     else:
         run.violated('LANGMATCH', 'cloneFeatures', fn.where(), 'SillMap::cloneFeatures no longer returns the entry whose tag equals the argument / the defaults otherwise '
-                     '(match %s, default %s)' % (ok, dflt))
+                     '(match %s, default %s%s)' % ('entry' in kinds, 'default' in kinds, ', also: %s' % (odd + bad) if odd or bad else ''))
 
 
 def indextests(run, fx):
@@ -215,7 +243,7 @@ def nostraddle(run, fx):
     fn = ct[0]
     bump = [e for _, e in fn.elements() if e['k'] == 'BinaryOperator' and e['op'] == '=' and fn.render(fn.N(e['c'][0])) == 'bits_offset'
             and 'this->m_index' in fn.render(fn.N(e['c'][1])) and 'SIZEOF_CHUNK' in fn.render(fn.N(e['c'][1]))]
-    edges = dom.edges_with(fn, lambda f: f[0] == 'this->m_index' and f[1] == '>' and 'bits_offset' in f[2] and 'SIZEOF_CHUNK' in f[2])
+    edges = dom.edges_with(fn, lambda f: f[0] == 'this->m_index' and f[1] == '>' and 'bits_offset' in f[2] and ('SIZEOF_CHUNK' in f[2] or '/ 32' in f[2]))
     if not bump or not edges:
         run.violated('NOSTRADDLE', 'chunk bump', fn.where(), 'the FeatureRef constructor no longer moves bits_offset to the next chunk when the field would straddle a word '
                      '(bump %s, test %s)' % (bool(bump), bool(edges)))
